@@ -12,7 +12,19 @@ namespace {
 
 struct H {
     Ctx &c;
+    // backend: a plain root pointer, or the global (ci = -1) root of a vnacal_t through vnacal_property_*
+    vnacal_t *vcp = nullptr; ErrLog vlog;
     vnaproperty_t *root = nullptr;
+    const vnaproperty_t *cur_root() { if (!vcp) return root; errno = 0; return vnacal_property_get_subtree(vcp, -1, "."); }
+    int b_set(const char *s) { return vcp ? vnacal_property_set(vcp, -1, "%s", s) : vnaproperty_set(&root, "%s", s); }
+    int b_set2(const char *q, const char *v) { return vcp ? vnacal_property_set(vcp, -1, "%s=%s", q, v) : vnaproperty_set(&root, "%s=%s", q, v); }
+    int b_delete(const char *s) { return vcp ? vnacal_property_delete(vcp, -1, "%s", s) : vnaproperty_delete(&root, "%s", s); }
+    int b_type(const char *s) { return vcp ? vnacal_property_type(vcp, -1, "%s", s) : vnaproperty_type(root, "%s", s); }
+    int b_count(const char *s) { return vcp ? vnacal_property_count(vcp, -1, "%s", s) : vnaproperty_count(root, "%s", s); }
+    const char *b_get(const char *s) { return vcp ? vnacal_property_get(vcp, -1, "%s", s) : vnaproperty_get(root, "%s", s); }
+    const char **b_keys(const char *s) { return vcp ? vnacal_property_keys(vcp, -1, "%s", s) : vnaproperty_keys(root, "%s", s); }
+    vnaproperty_t *b_get_subtree(const char *s) { return vcp ? vnacal_property_get_subtree(vcp, -1, "%s", s) : vnaproperty_get_subtree(root, "%s", s); }
+    vnaproperty_t **b_set_subtree(const char *s) { return vcp ? vnacal_property_set_subtree(vcp, -1, "%s", s) : vnaproperty_set_subtree(&root, "%s", s); }
     vnaproperty_t *clip = nullptr;      // "clipboard": a detached copy
     NodeP m, mclip;
     PropGen g;
@@ -20,11 +32,11 @@ struct H {
     bool f_conflict = false, f_shift = false, f_quoted = false, f_maplist = false;
 
     H(Ctx &c_) : c(c_), g(c_) {}
-    ~H() { vnaproperty_delete(&root, "."); vnaproperty_delete(&clip, "."); }
+    ~H() { vnaproperty_delete(&root, "."); vnaproperty_delete(&clip, "."); if (vcp) vnacal_free(vcp); }
 
     void compare(const char *what) {
         std::string why;
-        NodeP got = read_tree(root, why);
+        NodeP got = read_tree(cur_root(), why);
         if (!why.empty()) c.fail("C13.walk_failed", "step %d (%s): %s", step, what, why.c_str());
         if (!equal(got, m)) c.fail("C13.model_mismatch", "step %d (%s): object %s  model %s", step, what, show(got).c_str(), show(m).c_str());
     }
@@ -37,6 +49,7 @@ struct H {
     }
 
     void run() {
+        if (!c.exhaustive && c.chance(1, 4)) { vcp = vnacal_create(errlog_fn, &vlog); PBT_CHECK(c, vcp != nullptr, "C13.vnacal_create", "vnacal_create failed"); c.label("backend:vnacal_property(global)"); }
         size_t maxops = c.exhaustive ? (size_t)c.size : 200;
         size_t mean = c.exhaustive ? 1 : (size_t)(3 + c.size);
         for (size_t n = 0; (c.mark(), c.more(n, mean, maxops)); n++) { step++; one_op(); }
@@ -66,7 +79,7 @@ struct H {
             Res r = op_set(&m, d, isnull, val);
             if (!r.ok) m = before;      // a refused set changes nothing
             errno = 0;
-            int rc = vnaproperty_set(&root, "%s", ds.c_str()); int err = errno;
+            int rc = b_set(ds.c_str()); int err = errno;
             check_fail(r, rc != 0, err, "set", ds);
             note_desc(d, before);
             if (r.ok && conflict(before, d)) f_conflict = true;
@@ -80,7 +93,7 @@ struct H {
             NodeP before = clone(m);
             NodeP *slot = descend_set(&m, d);
             errno = 0;
-            vnaproperty_t **anchor = vnaproperty_set_subtree(&root, "%s", ds.c_str());
+            vnaproperty_t **anchor = b_set_subtree(ds.c_str());
             PBT_CHECK(c, anchor != nullptr, "C13.valid_refused", "step %d: set_subtree(%s) failed errno %d", step, esc(ds).c_str(), errno);
             note_desc(d, before);
             if (conflict(before, d)) f_conflict = true;
@@ -101,7 +114,7 @@ struct H {
             Res r = op_delete(&m, d);
             if (!r.ok) m = before;
             errno = 0;
-            int rc = vnaproperty_delete(&root, "%s", ds.c_str()); int err = errno;
+            int rc = b_delete(ds.c_str()); int err = errno;
             check_fail(r, rc != 0, err, "delete", ds);
             note_desc(d, before);
             if (r.ok && !d.path.empty() && d.path.back().t == Elem::IDX && d.tail == Desc::NONE) f_shift = true;
@@ -110,7 +123,7 @@ struct H {
         case 3: {   // copy: whole tree to the clipboard, or clipboard into a subtree
             if (c.boolean() || !mclip) {
                 c.note("copy(clip <- root)");
-                int rc = vnaproperty_copy(&clip, root);
+                int rc = vnaproperty_copy(&clip, cur_root());
                 PBT_CHECK(c, rc == 0, "C13.valid_refused", "step %d: copy failed", step);
                 mclip = clone(m);
             } else {
@@ -119,7 +132,7 @@ struct H {
                 c.note("copy(%s <- clip)", esc(ds).c_str());
                 NodeP *slot = descend_set(&m, d);
                 *slot = clone(mclip);
-                vnaproperty_t **anchor = vnaproperty_set_subtree(&root, "%s", ds.c_str());
+                vnaproperty_t **anchor = b_set_subtree(ds.c_str());
                 PBT_CHECK(c, anchor != nullptr, "C13.valid_refused", "step %d: set_subtree(%s) failed", step, esc(ds).c_str());
                 int rc = vnaproperty_copy(anchor, clip);
                 PBT_CHECK(c, rc == 0, "C13.valid_refused", "step %d: copy failed", step);
@@ -142,23 +155,23 @@ struct H {
             std::string ds = g.gen_malformed();
             c.note("malformed(%s)", esc(ds).c_str());
             c.label("malformed");
-            errno = 0; int t = vnaproperty_type(root, "%s", ds.c_str()); int e1 = errno;
+            errno = 0; int t = b_type(ds.c_str()); int e1 = errno;
             PBT_CHECK(c, t == -1 && (e1 == EINVAL || e1 == ENOENT), "C13.malformed_accepted", "step %d: type(%s) -> %d errno %d", step, esc(ds).c_str(), t, e1);
-            errno = 0; int n = vnaproperty_count(root, "%s", ds.c_str()); e1 = errno;
+            errno = 0; int n = b_count(ds.c_str()); e1 = errno;
             PBT_CHECK(c, n == -1 && (e1 == EINVAL || e1 == ENOENT), "C13.malformed_accepted", "step %d: count(%s) -> %d errno %d", step, esc(ds).c_str(), n, e1);
-            errno = 0; const char *s = vnaproperty_get(root, "%s", ds.c_str()); e1 = errno;
+            errno = 0; const char *s = b_get(ds.c_str()); e1 = errno;
             PBT_CHECK(c, s == nullptr && (e1 == EINVAL || e1 == ENOENT), "C13.malformed_accepted", "step %d: get(%s) errno %d", step, esc(ds).c_str(), e1);
-            errno = 0; const char **k = vnaproperty_keys(root, "%s", ds.c_str()); e1 = errno;
+            errno = 0; const char **k = b_keys(ds.c_str()); e1 = errno;
             PBT_CHECK(c, k == nullptr && (e1 == EINVAL || e1 == ENOENT), "C13.malformed_accepted", "step %d: keys(%s) errno %d", step, esc(ds).c_str(), e1);
-            errno = 0; vnaproperty_t *st = vnaproperty_get_subtree(root, "%s", ds.c_str()); e1 = errno;
+            errno = 0; vnaproperty_t *st = b_get_subtree(ds.c_str()); e1 = errno;
             PBT_CHECK(c, st == nullptr && (e1 == EINVAL || e1 == ENOENT), "C13.malformed_accepted", "step %d: get_subtree(%s) errno %d", step, esc(ds).c_str(), e1);
-            errno = 0; int rc = vnaproperty_delete(&root, "%s", ds.c_str()); e1 = errno;
+            errno = 0; int rc = b_delete(ds.c_str()); e1 = errno;
             PBT_CHECK(c, rc == -1 && (e1 == EINVAL || e1 == ENOENT), "C13.malformed_accepted", "step %d: delete(%s) -> %d errno %d", step, esc(ds).c_str(), rc, e1);
             if (ds.empty() || ds.back() != '\\') {      // a trailing backslash would quote the '='
-                errno = 0; rc = vnaproperty_set(&root, "%s=v", ds.c_str()); e1 = errno;
+                errno = 0; rc = b_set((ds + "=v").c_str()); e1 = errno;
                 PBT_CHECK(c, rc == -1 && e1 == EINVAL, "C13.malformed_accepted", "step %d: set(%s=v) -> %d errno %d", step, esc(ds).c_str(), rc, e1);
             }
-            errno = 0; vnaproperty_t **a = vnaproperty_set_subtree(&root, "%s", ds.c_str()); e1 = errno;
+            errno = 0; vnaproperty_t **a = b_set_subtree(ds.c_str()); e1 = errno;
             PBT_CHECK(c, a == nullptr && e1 == EINVAL, "C13.malformed_accepted", "step %d: set_subtree(%s) errno %d", step, esc(ds).c_str(), e1);
             break;
         }
@@ -172,11 +185,11 @@ struct H {
             else { Desc d2 = d; d2.tail = Desc::LISTT; full = g.print(d2) + "#"; }
             c.note("refused_set(%s)", esc(full).c_str());
             c.label("refused-set");
-            errno = 0; int rc = vnaproperty_set(&root, "%s", full.c_str()); int err = errno;
+            errno = 0; int rc = b_set(full.c_str()); int err = errno;
             PBT_CHECK(c, rc == -1 && err == EINVAL, "C13.invalid_accepted", "step %d: set(%s) -> %d errno %d, expected -1/EINVAL", step, esc(full).c_str(), rc, err);
             // set_subtree / get_subtree with trailing tokens
             std::string tr = ds + (c.boolean() ? "=1" : "#");
-            errno = 0; vnaproperty_t **a = vnaproperty_set_subtree(&root, "%s", tr.c_str()); err = errno;
+            errno = 0; vnaproperty_t **a = b_set_subtree(tr.c_str()); err = errno;
             PBT_CHECK(c, a == nullptr && err == EINVAL, "C13.invalid_accepted", "step %d: set_subtree(%s) with trailing token accepted (errno %d)", step, esc(tr).c_str(), err);
             break;
         }
@@ -191,9 +204,9 @@ struct H {
             Desc d; Elem e; e.t = Elem::KEY; e.key = k; d.path.push_back(e);
             NodeP before = clone(m);
             op_set(&m, d, false, val);
-            int rc = vnaproperty_set(&root, "%s=%s", qs.c_str(), val.c_str());
+            int rc = b_set2(qs.c_str(), val.c_str());
             PBT_CHECK(c, rc == 0, "C13.quote_key", "step %d: set(%s=..) with library-quoted key %s failed errno %d", step, esc(qs).c_str(), esc(k).c_str(), errno);
-            const char *got = vnaproperty_get(root, "%s", qs.c_str());
+            const char *got = b_get(qs.c_str());
             PBT_CHECK(c, got && val == got, "C13.quote_key", "step %d: get(%s) after set returned %s", step, esc(qs).c_str(), got ? esc(got).c_str() : "NULL");
             if (conflict(before, d)) f_conflict = true;
             break;
@@ -219,24 +232,24 @@ struct H {
         Res r = descend_ro(&mm, d, &slot, &coll);
         NodeP n = r.ok ? *slot : nullptr;
         // type
-        errno = 0; int t = vnaproperty_type(root, "%s", ds.c_str()); int err = errno;
+        errno = 0; int t = b_type(ds.c_str()); int err = errno;
         if (!r.ok) check_fail(r, t == -1, err, "type", ds);
         else if (!n) PBT_CHECK(c, t == -1, "C13.query", "step %d: type(%s) of a null node returned %d", step, esc(ds).c_str(), t);
         else { int want = n->kind == Node::SCALAR ? 's' : n->kind == Node::MAP ? 'm' : 'l'; PBT_CHECK(c, t == want, "C13.query", "step %d: type(%s) = %d, model '%c'", step, esc(ds).c_str(), t, want); }
         // count
-        errno = 0; int cnt = vnaproperty_count(root, "%s", ds.c_str()); err = errno;
+        errno = 0; int cnt = b_count(ds.c_str()); err = errno;
         if (!r.ok) check_fail(r, cnt == -1, err, "count", ds);
         else if (!n) PBT_CHECK(c, cnt == -1, "C13.query", "step %d: count(%s) of a null node returned %d", step, esc(ds).c_str(), cnt);
         else if (n->kind == Node::SCALAR) PBT_CHECK(c, cnt == -1 && err == EINVAL, "C13.query", "step %d: count(%s) of a scalar returned %d errno %d", step, esc(ds).c_str(), cnt, err);
         else { int want = n->kind == Node::MAP ? (int)n->map.size() : (int)n->list.size(); PBT_CHECK(c, cnt == want, "C13.query", "step %d: count(%s) = %d, model %d", step, esc(ds).c_str(), cnt, want); }
         // get
-        errno = 0; const char *s = vnaproperty_get(root, "%s", ds.c_str()); err = errno;
+        errno = 0; const char *s = b_get(ds.c_str()); err = errno;
         if (!r.ok) check_fail(r, s == nullptr, err, "get", ds);
         else if (!n) PBT_CHECK(c, s == nullptr, "C13.query", "step %d: get(%s) of a null node returned a string", step, esc(ds).c_str());
         else if (n->kind != Node::SCALAR) PBT_CHECK(c, s == nullptr && err == EINVAL, "C13.query", "step %d: get(%s) of a non-scalar: ptr %p errno %d", step, esc(ds).c_str(), (const void *)s, err);
         else PBT_CHECK(c, s && n->sval == s, "C13.query", "step %d: get(%s) = %s, model %s", step, esc(ds).c_str(), s ? esc(s).c_str() : "NULL", esc(n->sval).c_str());
         // keys
-        errno = 0; const char **k = vnaproperty_keys(root, "%s", ds.c_str()); err = errno;
+        errno = 0; const char **k = b_keys(ds.c_str()); err = errno;
         if (!r.ok) check_fail(r, k == nullptr, err, "keys", ds);
         else if (!n) PBT_CHECK(c, k == nullptr, "C13.query", "step %d: keys(%s) of a null node non-NULL", step, esc(ds).c_str());
         else if (n->kind != Node::MAP) PBT_CHECK(c, k == nullptr && err == EINVAL, "C13.query", "step %d: keys(%s) of a non-map: errno %d", step, esc(ds).c_str(), err);
@@ -247,7 +260,7 @@ struct H {
         }
         free((void *)k);
         // get_subtree
-        errno = 0; vnaproperty_t *st = vnaproperty_get_subtree(root, "%s", ds.c_str()); err = errno;
+        errno = 0; vnaproperty_t *st = b_get_subtree(ds.c_str()); err = errno;
         if (!r.ok) check_fail(r, st == nullptr && err != 0, err, "get_subtree", ds);
         else {
             if (!n) PBT_CHECK(c, st == nullptr && err == 0, "C13.query", "step %d: get_subtree(%s) of a null node: ptr %p errno %d (documented: NULL with errno untouched)", step, esc(ds).c_str(), (void *)st, err);
